@@ -44,23 +44,87 @@ mkharness() {
   cp "$d/repo/go.sum" "$d/h/go.sum" 2>/dev/null || true
 }
 
-# mkoverlay: a copy of the standard library's sync/pool.go whose Put discards
-# (behaviour Pool's contract allows). Under -race the stock Put drops items at
-# random and its Put/Get are release/acquire-annotated, which both randomises
-# and hides data races between simulated clients that merely share fmt's
-# internal buffer pool. Only world C06 is built with this overlay.
+# mkoverlay: a copy of the standard library's sync/pool.go for the -race build of
+# world C06. Pools used by anything but the library under test (fmt's buffers
+# ...) never retain: under -race the stock Put drops items at random and Put/Get
+# are release/acquire-annotated, which both randomises reports and hides data
+# races between simulated clients that merely share fmt's internal buffer pool
+# (discarding is behaviour Pool's contract allows). Pools whose first user is a
+# function of github.com/sdcio/yang-parser keep their items in a deterministic
+# LIFO with the usual per-object release/acquire annotation, so that a
+# sync.Pool introduced into the library is exercised (reuse, use-after-Put)
+# instead of being silently neutralised.
 mkoverlay() {
   local gr; gr="$($GO env GOROOT)"
   local src="$gr/src/sync/pool.go"
   [ -f "$src" ] || die2 "cannot find $src"
   mkdir -p "$BUILD_DIR/overlay"
-  if [ ! -f "$BUILD_DIR/overlay/pool.go" ] || [ "$src" -nt "$BUILD_DIR/overlay/pool.go" ]; then
+  if [ ! -f "$BUILD_DIR/overlay/pool.go" ] || [ "$src" -nt "$BUILD_DIR/overlay/pool.go" ] || [ "$VERIF_ROOT/bin/lib.sh" -nt "$BUILD_DIR/overlay/pool.go" ]; then
     python3 - "$src" "$BUILD_DIR/overlay/pool.go" <<'PY' || die2 "cannot patch sync/pool.go"
 import sys,re
 s=open(sys.argv[1]).read()
+# 1. two extra fields on Pool
+old="\tNew func() any\n}"
+assert old in s, "unexpected sync/pool.go (struct)"
+s=s.replace(old, "\tNew func() any\n\n\t// verif overlay\n\tverifKind int8  // 0 unknown, 1 owned by the library under test, 2 anything else\n\tverifLIFO []any // deterministic free list of library-owned pools\n}",1)
+# 2. Put: pools of the library under test keep their items in a deterministic LIFO (with the usual
+#    release annotation on the object); all other pools (fmt's buffers etc.) never retain.
 old="func (p *Pool) Put(x any) {\n\tif x == nil {\n\t\treturn\n\t}\n"
-assert old in s, "unexpected sync/pool.go"
-s=s.replace(old, old+"\tif race.Enabled {\n\t\treturn // verif overlay: never retain under the simulator\n\t}\n",1)
+assert old in s, "unexpected sync/pool.go (Put)"
+s=s.replace(old, old+"""\tif race.Enabled {
+\t\tif p.verifOwned() {
+\t\t\trace.ReleaseMerge(poolRaceAddr(x))
+\t\t\trace.Disable()
+\t\t\tp.verifLIFO = append(p.verifLIFO, x)
+\t\t\trace.Enable()
+\t\t}
+\t\treturn // verif overlay: never retain in the randomised per-P structures under the simulator
+\t}
+""",1)
+# 3. Get: serve library-owned pools from the LIFO
+old="func (p *Pool) Get() any {\n"
+assert old in s, "unexpected sync/pool.go (Get)"
+s=s.replace(old, old+"""\tif race.Enabled && p.verifOwned() {
+\t\trace.Disable()
+\t\tvar x any
+\t\tif n := len(p.verifLIFO); n > 0 {
+\t\t\tx = p.verifLIFO[n-1]
+\t\t\tp.verifLIFO[n-1] = nil
+\t\t\tp.verifLIFO = p.verifLIFO[:n-1]
+\t\t}
+\t\trace.Enable()
+\t\tif x != nil {
+\t\t\trace.Acquire(poolRaceAddr(x))
+\t\t\treturn x
+\t\t}
+\t\tif p.New != nil {
+\t\t\treturn p.New()
+\t\t}
+\t\treturn nil
+\t}
+""",1)
+s+="""
+// verifOwned reports whether the pool is used by the library under test
+// (decided once, by the first caller of Put or Get).
+func (p *Pool) verifOwned() bool {
+\trace.Disable()
+\tdefer race.Enable()
+\tif p.verifKind == 0 {
+\t\tp.verifKind = 2
+\t\tvar pcs [1]uintptr
+\t\tif runtime.Callers(3, pcs[:]) == 1 {
+\t\t\tif f := runtime.FuncForPC(pcs[0] - 1); f != nil {
+\t\t\t\tname := f.Name()
+\t\t\t\tconst pfx = "github.com/sdcio/yang-parser/"
+\t\t\t\tif len(name) > len(pfx) && name[:len(pfx)] == pfx {
+\t\t\t\t\tp.verifKind = 1
+\t\t\t\t}
+\t\t\t}
+\t\t}
+\t}
+\treturn p.verifKind == 1
+}
+"""
 open(sys.argv[2],'w').write(s)
 PY
   fi
